@@ -116,3 +116,33 @@ Fixpoint is_prefix (p s : bytes) : bool :=
   | x :: p', y :: s' => Ascii.eqb x y && is_prefix p' s'
   | _ :: _, [] => false
   end.
+
+(* ---------------------------------------------------------------- the pre-pass of processFilesInPlace (after the repair
+   "mlr -I refuses URLs, --prepipe and bzip2 inputs before any file is modified"): for EVERY name, before the first file
+   is processed,  lib.IsUpdateableInPlace(name, prepipe)  and  lib.FindInputEncoding(name, flag) == bzip2  are checked;
+   the first name that fails makes the whole command return the error with nothing done. *)
+Inductive encoding := EncDefault | EncBzip2 | EncGzip | EncZlib | EncZstd.    (* --bz2in --gzin --zin --zstdin *)
+
+Definition has_suffix (suf s : bytes) : bool := is_prefix (rev suf) (rev s).
+
+(* lib.IsUpdateableInPlace: strings.HasPrefix(filename, "http://") || "https://" || "file://" *)
+Definition is_url (f : path) : bool :=
+  is_prefix (B "http://") f || is_prefix (B "https://") f || is_prefix (B "file://") f.
+
+(* lib.FindInputEncoding: the flag wins; else the suffix .bz2 .gz .z .zst, in this order *)
+Definition input_encoding (flag : encoding) (f : path) : encoding :=
+  match flag with
+  | EncDefault =>
+      if has_suffix (B ".bz2") f then EncBzip2 else if has_suffix (B ".gz") f then EncGzip
+      else if has_suffix (B ".z") f then EncZlib else if has_suffix (B ".zst") f then EncZstd else EncDefault
+  | e => e
+  end.
+
+Definition is_bzip2 (e : encoding) : bool := match e with EncBzip2 => true | _ => false end.
+
+Definition updatable (prepipe : bool) (flag : encoding) (f : path) : bool :=
+  negb (is_url f) && negb prepipe && negb (is_bzip2 (input_encoding flag f)).
+
+(* the whole command: nothing at all unless every name is updatable *)
+Definition inplace_ops (prepipe : bool) (flag : encoding) (plan : list entry) : list op :=
+  if forallb (fun e => updatable prepipe flag (e_file e)) plan then all_ops plan else [].
